@@ -23,6 +23,9 @@ EXTENDS Naturals, Sequences, FiniteSets, TLC
 CONSTANTS
     Kinds,          \* token kinds explored, subset of AllKinds
     NIp, NDom, NMac, NKw, NPat,     \* universe sizes per kind
+    NIp6,           \* IPv6 addresses
+    NAk,            \* keys of the allow list
+    V6Set,          \* subset of BOOLEAN: obfuscate_ipv6
     DelSet,         \* delimiter classes explored, subset of AllDel
     MaxTok,         \* tokens per line
     MaxLines,       \* lines per spec
@@ -42,12 +45,12 @@ CONSTANTS
     AllOrders,      \* BOOLEAN: ChooseOrder ranges over every permutation (else one representative)
     FreeOrder       \* BOOLEAN: every run picks its own order (demonstration config only)
 
-AllKinds == {"text", "ip", "loop", "short", "fqdn", "dom", "mac", "nullmac", "kw", "pat", "pw", "akey"}
+AllKinds == {"text", "ip", "ip6", "loop", "short", "fqdn", "dom", "mac", "nullmac", "kw", "pat", "pw", "akey"}
 (* delimiter classes: line start / end, white space, punctuation (never    *)
 (* ':' '-' '.' '_'), ':' , '-', a dot with digits ('.443' on the right,      *)
 (* '7.' on the left), a letter or '_', a digit (for a MAC: a hex digit)     *)
 AllDel   == {"edge", "space", "punct", "colon", "dash", "dotnum", "alpha", "digit"}
-Obfs     == {"hostname", "ip", "keyword", "mac", "password"}
+Obfs     == {"hostname", "ip", "keyword", "mac", "password"}     \* + "ipv6", which competes with nobody: applied right after "ip"
 (* Families say what the driver puts underneath the ids:                    *)
 (*   plain   values that cannot collide with anything the obfuscators issue *)
 (*   prefix  ip 1 is a textual prefix of ip 2                               *)
@@ -56,9 +59,11 @@ Obfs     == {"hostname", "ip", "keyword", "mac", "password"}
 (*   kwdom   keyword 1 is a label of the system's domain (two obfuscators   *)
 (*           compete for every name of the domain)                          *)
 (*   pwip    the secret after a password key is the address ip 1            *)
+(*   kwhost  keyword 1 is a part of the host label of dom 1                 *)
+(*   v6lb    an IPv6 address with punctuation on its left has ] ^ or ` there *)
 (*   eqlen   the domain hosts have names of equal length (ties in a        *)
 (*           longest-first treatment), the highest id may be longer        *)
-AllFam   == {"plain", "prefix", "collide", "suffix", "kwdom", "pwip", "eqlen"}
+AllFam   == {"plain", "prefix", "collide", "suffix", "kwdom", "kwhost", "pwip", "eqlen", "v6lb"}
 
 VARIABLES
     phase,      \* "new" | "idle" | "spec" | "done"
@@ -83,17 +88,28 @@ IdsOf(k) == CASE k = "ip"  -> 1..NIp
               [] k = "mac" -> 1..NMac
               [] k = "kw"  -> 1..NKw
               [] k = "pat" -> 1..NPat
+              [] k = "ip6" -> 1..NIp6
+              [] k = "akey" -> 1..NAk
               [] OTHER     -> {0}
 TokSet  == UNION {{[k |-> k, id |-> i, l |-> l, r |-> r] : i \in IdsOf(k), l \in DelSet, r \in DelSet} : k \in Kinds}
 LineSet == UNION {[1..n -> TokSet] : n \in (IF AllowBlank THEN 0 ELSE 1)..MaxTok}
 SpSet   == [nored : NoRedSet, noobf : NoObfSets, width : WidthSet, allow : AllowSet]
-Cfgs    == {c \in [obf : ObfSet, host : HostSet, mac : MacSet, kws : KwSets, pats : PatSets,
+Cfgs    == {c \in [obf : ObfSet, host : HostSet, mac : MacSet, v6 : V6Set, kws : KwSets, pats : PatSets,
                    regex : RegexSet, sysdom : SysDomSet, fam : FamSet] :
                 /\ (c.pats = {} => ~c.regex \/ RegexSet = {TRUE})
                 /\ (c.host => c.obf)}      \* client/config.py: obfuscate_hostname requires obfuscate
+(* ChooseOrder: ANY fixed order in which a configured keyword cannot pre-empt *)
+(* a mapped original (a keyword inside a host name / address): otherwise the *)
+(* same host passing through a spec that exempts keywords and through one   *)
+(* that does not gets two substitutes - TLC finds that history (Rewritten,  *)
+(* Consistent) as soon as the side condition is dropped.                    *)
+OrderOK(s) == \A i, j \in DOMAIN s : (s[i] = "keyword" /\ s[j] \in {"hostname", "ip", "mac"}) => j < i
+WithV6(s) == LET k == CHOOSE i \in DOMAIN s : s[i] = "ip" IN
+             [i \in 1..(Len(s) + 1) |-> IF i <= k THEN s[i] ELSE IF i = k + 1 THEN "ipv6" ELSE s[i - 1]]
 Orders  == IF AllOrders
-             THEN {s \in [1..Cardinality(Obfs) -> Obfs] : \A i, j \in DOMAIN s : s[i] = s[j] => i = j}
-             ELSE {<<"hostname", "ip", "keyword", "mac", "password">>}
+             THEN {WithV6(s) : s \in {s \in [1..Cardinality(Obfs) -> Obfs] :
+                                          (\A i, j \in DOMAIN s : s[i] = s[j] => i = j) /\ OrderOK(s)}}
+             ELSE {<<"hostname", "ip", "ipv6", "keyword", "mac", "password">>}
 
 -----------------------------------------------------------------------------
 (* The statement of C08, token by token.                                    *)
@@ -123,19 +139,29 @@ MustDrop(line, c, sp) ==
     ~sp.nored /\ \E i \in DOMAIN line : line[i].k = "pat" /\ line[i].id \in c.pats
 (* allow-list filtering (cleaner/filters.py): a non-blank line passes only  *)
 (* while it contains a key whose max_match budget is not used up            *)
+(* (allow = n: the list {key 1 : n, ..., key NAk : n}; a line that contains  *)
+(* several open keys is charged to the first of them in the list's order)   *)
 HasKey(line) == \E i \in DOMAIN line : line[i].k = "akey"
-FilterDrops(line, sp, bud) == sp.allow > 0 /\ line # <<>> /\ ~(HasKey(line) /\ bud > 0)
+OpenKeys(line, bud) == {line[i].id : i \in {j \in DOMAIN line : line[j].k = "akey" /\ bud[line[j].id] > 0}}
+FilterDrops(line, sp, bud) == sp.allow > 0 /\ line # <<>> /\ OpenKeys(line, bud) = {}
+Charge(line, bud) == LET k == CHOOSE k \in OpenKeys(line, bud) : \A x \in OpenKeys(line, bud) : k <= x
+                     IN [bud EXCEPT ![k] = @ - 1]
+NoBud == [k \in 1..NAk |-> 0]
 
 (* Originals the mapping of C09 talks about.  The system's short and fully  *)
 (* qualified name are one original (id 0 of group "host").                  *)
 Group(k) == CASE k = "ip" -> "ip" [] k \in {"short", "fqdn", "dom"} -> "host"
-              [] k = "mac" -> "mac" [] k = "kw" -> "kw" [] OTHER -> "none"
+              [] k = "mac" -> "mac" [] k = "kw" -> "kw" [] k = "ip6" -> "ip6" [] OTHER -> "none"
 OrigOf(t) == <<Group(t.k), IF t.k \in {"short", "fqdn"} THEN 0 ELSE t.id>>
 Sys       == <<"host", 0>>
-Competing(c) == c.fam \in {"kwdom", "pwip"}
+Competing(c) == c.fam = "pwip"
+(* C09 speaks of "IP address" in general, C08 of IPv4 only: an IPv6 address *)
+(* (full eight-group notation, delimited) is mapped when the IPv6           *)
+(* obfuscator is on, without being part of MustHide.                        *)
+Hidden(t, c, sp) == IF t.k = "ip6" THEN c.obf /\ c.v6 /\ ~Exempt("ipv6", sp) ELSE MustHide(t, c, sp)
 (* an occurrence the mapping must account for: a delimited occurrence that  *)
 (* has to be hidden, of a kind that is mapped                               *)
-MustMap(t, c, sp) == Group(t.k) \in {"ip", "host", "mac"} /\ DelimK(t) /\ MustHide(t, c, sp)
+MustMap(t, c, sp) == Group(t.k) \in {"ip", "ip6", "host", "mac"} /\ DelimK(t) /\ Hidden(t, c, sp)
 
 -----------------------------------------------------------------------------
 (* The pipeline (cleaner/__init__.py:125-146): the enabled obfuscators are  *)
@@ -144,19 +170,23 @@ MustMap(t, c, sp) == Group(t.k) \in {"ip", "host", "mac"} /\ DelimK(t) /\ MustHi
 Enabled(o, c, sp) ==
     /\ ~Exempt(o, sp)
     /\ CASE o = "ip" -> c.obf [] o = "hostname" -> c.obf /\ c.host [] o = "mac" -> c.obf /\ c.mac
+         [] o = "ipv6" -> c.obf /\ c.v6
          [] o = "keyword" -> c.kws # {} [] OTHER -> TRUE
 Rec(o, t, c) ==
     CASE o = "keyword"  -> \/ t.k = "kw" /\ t.id \in c.kws
                            \/ c.fam = "kwdom" /\ t.k \in {"fqdn", "dom"} /\ c.sysdom /\ 1 \in c.kws
+                           \/ c.fam = "kwhost" /\ t.k = "dom" /\ t.id = 1 /\ 1 \in c.kws
       [] o = "hostname" -> t.k \in {"short", "fqdn"} \/ (t.k = "dom" /\ c.sysdom)
       [] o = "ip"       -> (t.k = "ip" /\ IpMaximal(t)) \/ (c.fam = "pwip" /\ t.k = "pw")
       [] o = "mac"      -> t.k = "mac" /\ MacDelimited(t)
+      [] o = "ipv6"     -> t.k = "ip6" /\ Delimited(t)
       [] OTHER          -> t.k = "pw"
 RECURSIVE First(_, _, _, _, _)
 First(t, c, sp, od, j) ==
     IF j > Len(od) THEN "none"
     ELSE IF Enabled(od[j], c, sp) /\ Rec(od[j], t, c) THEN od[j] ELSE First(t, c, sp, od, j + 1)
 OwnObf(k) == CASE k = "ip" -> "ip" [] k \in {"short", "fqdn", "dom"} -> "hostname" [] k = "mac" -> "mac"
+               [] k = "ip6" -> "ipv6"
                [] k = "kw" -> "keyword" [] k = "pw" -> "password" [] OTHER -> "none"
 
 NewOrigs(line, c, sp) == {OrigOf(line[i]) : i \in {j \in DOMAIN line : MustMap(line[j], c, sp)}} \ DOMAIN db
@@ -174,7 +204,7 @@ OccIn(line) == {OrigOf(line[i]) : i \in {j \in DOMAIN line : Group(line[j].k) # 
 -----------------------------------------------------------------------------
 Init ==
     /\ phase = "new" /\ cf = [obf |-> FALSE] /\ ord = <<>> /\ run = 1 /\ content = <<>> /\ si = 0
-    /\ cur = [i |-> 0, acc |-> <<>>, bud |-> 0] /\ db = <<>> /\ seen = {} /\ cnt = 0 /\ outs = <<>>
+    /\ cur = [i |-> 0, acc |-> <<>>, bud |-> NoBud] /\ db = <<>> /\ seen = {} /\ cnt = 0 /\ outs = <<>>
     /\ report = {} /\ runs = <<>>
 
 FreshDb(c) == IF c.obf /\ c.host THEN (Sys :> 1) ELSE <<>>       \* hostname.py:28-48
@@ -201,7 +231,7 @@ BeginSpec ==
                     content' = Append(content, [sp |-> sp, lines |-> ls])
          ELSE si < Len(content) /\ content' = content
     /\ si' = si + 1
-    /\ cur' = [i |-> Len(content'[si + 1].lines), acc |-> <<>>, bud |-> content'[si + 1].sp.allow]
+    /\ cur' = [i |-> Len(content'[si + 1].lines), acc |-> <<>>, bud |-> [k \in 1..NAk |-> content'[si + 1].sp.allow]]
     /\ phase' = "spec"
     /\ UNCHANGED <<cf, ord, run, db, seen, cnt, outs, report, runs>>
 
@@ -220,7 +250,7 @@ CleanLine ==                                    \* one iteration of the loop at 
                  /\ db' = ndb
                  /\ cnt' = cnt + Cardinality(DOMAIN ndb \ DOMAIN db)
                  /\ cur' = [i |-> cur.i - 1,
-                            bud |-> IF sp.allow > 0 /\ line # <<>> THEN cur.bud - 1 ELSE cur.bud,
+                            bud |-> IF sp.allow > 0 /\ line # <<>> THEN Charge(line, cur.bud) ELSE cur.bud,
                             acc |-> Append(cur.acc, [src |-> cur.i, toks |-> line, dropped |-> FALSE,
                                                      sts |-> [j \in DOMAIN line |-> Status(line[j], cf, sp, ord, ndb)]])]
     /\ seen' = seen \cup OccIn(content[si].lines[cur.i])          \* "occurred in the content", kept or not
@@ -252,7 +282,7 @@ Rerun ==                                        \* a fresh cleaner, same configu
     /\ run' = run + 1
     /\ IF FreeOrder THEN ord' \in Orders ELSE ord' = ord
     /\ db' = FreshDb(cf) /\ cnt' = FreshCnt(cf) /\ seen' = {} /\ outs' = <<>> /\ report' = {}
-    /\ si' = 0 /\ cur' = [i |-> 0, acc |-> <<>>, bud |-> 0]
+    /\ si' = 0 /\ cur' = [i |-> 0, acc |-> <<>>, bud |-> NoBud]
     /\ phase' = "idle"
     /\ UNCHANGED <<cf, content, runs>>
 
